@@ -15,10 +15,10 @@ _ids = itertools.count(1)
 class Sym:
     """Symbolic scalar: k in {'int','bool','str','ref','enum'}; cls = python class name for refs/enums."""
 
-    __slots__ = ("t", "k", "cls")
+    __slots__ = ("t", "k", "cls", "nullable")
 
-    def __init__(self, t, k, cls=None):
-        self.t, self.k, self.cls = t, k, cls
+    def __init__(self, t, k, cls=None, nullable=False):
+        self.t, self.k, self.cls, self.nullable = t, k, cls, nullable     # nullable: a ref that may be the NONE_REF sentinel
 
     def __repr__(self):
         return "Sym<%s:%s>" % (self.k, self.t)
